@@ -10,7 +10,7 @@ def exSurf : Shape ℚ :=
     net := [[0,0,0,1],[2,0,2,2],[0,1,0,1],[3,3,6,3],[0,0,1,1],[4,0,2,2]] }
 
 theorem exSurf_wf : ShapeWF 3 exSurf := by
-  refine ⟨Or.inr (Or.inl rfl), ?_, rfl, ?_, ?_⟩
+  refine ⟨Or.inr (Or.inl rfl), ?_, rfl, ?_, ?_, ?_, ?_⟩
   · intro i hi
     have hi' : i < 2 := hi
     rcases i with _ | _ | i
@@ -20,6 +20,18 @@ theorem exSurf_wf : ShapeWF 3 exSurf := by
   · show NetOk 4 exSurf.net
     intro pt hpt; simp [exSurf] at hpt; rcases hpt with h|h|h|h|h|h <;> simp [h]
   · intro _ pt hpt; simp [exSurf] at hpt; rcases hpt with h|h|h|h|h|h <;> simp [h]
+  · intro i hi
+    have hi' : i < 2 := hi
+    rcases i with _ | _ | i
+    · rfl
+    · rfl
+    · omega
+  · intro i hi
+    have hi' : i < 2 := hi
+    rcases i with _ | _ | i
+    · decide
+    · decide
+    · omega
 
 /-- the parameter pair `(5/2, 1/3)` -/
 def exT : ℕ → ℚ := fun i => if i = 0 then 5/2 else 1/3
